@@ -61,7 +61,7 @@ NoDoubleCount ==
     \A a \in 1..2 :
        LET S == C!CountedOf(cs, a, target)
            p == C!LedgerT(cs, a, target)
-           g == C!LedgerTGrouped(cs, a, target)
+           g == C!LedgerTGrouped(cs, a, target, << >>)
        IN  /\ p[1] + p[2] = C!SumV(cs, S) /\ g[1] + g[2] = C!SumV(cs, S)
            /\ C!SumV(cs, S) <= C!SumV(cs, { c \in Known : cs.coins[c].acct = a })
            /\ g[2] <= p[2]                              \* the grouped reading never invents dust
